@@ -1,5 +1,6 @@
 import Spine.Json
 import Spine.SchemaLookup
+import Spine.PeriodJson
 open Spine.Json Spine.Generated
 /-! Line protocol for the schema-directed JSON model `Spine.Json` over the regenerated schema (C18).
 
@@ -11,6 +12,8 @@ open Spine.Json Spine.Generated
     dec  <GoType> <J>   decode                                  → V | none
     norm <GoType> <V>   normal form                             → V
     wf   <GoType>       the schema's side condition             → 1 | 0
+    tp <now> <now'> <start> <end>   TimePeriodType's own JSON (Spine.PeriodJson): classes - | j | r<secs> | a<secs>
+                        → "enc <start> <end> dec <start> <end>"  (on the wire when encoded at now; decoded at now')
 -/
 
 def hexVal (c : Char) : Nat :=
@@ -104,8 +107,29 @@ partial def parseKVs : Nat → List String → Option (List (Key × J) × List S
     | [] => none
 end
 
+def parseTV (s : String) : Option (Option Spine.PeriodJson.TV) :=
+  if s == "-" then some none
+  else if s == "j" then some (some .junk)
+  else match s.toList with
+    | 'r' :: d => (String.ofList d).toInt?.map fun n => some (.rel n)
+    | 'a' :: d => (String.ofList d).toInt?.map fun n => some (.abs n)
+    | _ => none
+
+def showTV : Option Spine.PeriodJson.TV → String
+  | none => "-"
+  | some .junk => "j"
+  | some (.rel d) => s!"r{d}"
+  | some (.abs t) => s!"a{t}"
+
 def answer (toks : List String) : String :=
   match toks with
+  | ["tp", n, n', s, e] =>
+    (match n.toInt?, n'.toInt?, parseTV s, parseTV e with
+     | some n, some n', some s, some e =>
+       let w := Spine.PeriodJson.marshal n ⟨s, e⟩
+       let r := Spine.PeriodJson.unmarshal n' w
+       s!"enc {showTV w.start} {showTV w.stop} dec {showTV r.start} {showTV r.stop}"
+     | _, _, _, _ => "bad-op")
   | "enc" :: ty :: rest =>
     (match schemaTy? (keyOfString ty), parseV rest with
      | some t, some (v, []) => if typed t v then showJ (encode t v) else "untyped"
